@@ -14,7 +14,9 @@ from . import build
 from .ir import AnalysisError
 
 VERIF = build.VERIF
-EVIDENCE_DIR = os.path.join(VERIF, "evidence")
+# evidence of runs against a scratch copy (self-tests, seeded changes: VERIF_REPO set) must not replace the evidence of /repo
+EVIDENCE_DIR = os.environ.get("VERIF_EVIDENCE_DIR") or (
+    os.path.join(VERIF, "evidence") if os.environ.get("VERIF_REPO", "/repo") == "/repo" else os.path.join(VERIF, "build", "evidence_scratch"))
 REPLAY_DIR = os.path.join(VERIF, "build", "replay")
 KNOWN = os.path.join(VERIF, "known_findings.json")
 
